@@ -199,3 +199,47 @@ func callsFunc(e ast.Expr, info *types.Info, fn *types.Func) bool {
 	})
 	return found
 }
+
+// R15c: Registry.Add takes out of a template body exactly the header params it moved into the soydoc: the
+// body is re-sliced from len(H), H being the list the HeaderParamNodes were collected in. Cutting at any
+// other position removes template text (for instance the blank text after the last {@param}) along with the
+// declarations.
+func ruleR15c(c *Ctx) {
+	p := c.pkg("template")
+	fd := c.mustFunc("template", "Registry.Add")
+	if p == nil || fd == nil {
+		return
+	}
+	info := p.TypesInfo
+	n := 0
+	ast.Inspect(fd.Body, func(x ast.Node) bool {
+		as, ok := x.(*ast.AssignStmt)
+		if !ok || len(as.Lhs) != 1 || len(as.Rhs) != 1 {
+			return true
+		}
+		fv := fieldOf(as.Lhs[0], info)
+		if fv == nil || fv.Name() != "Nodes" {
+			return true
+		}
+		n++
+		good := false
+		why := exprKey(as.Rhs[0])
+		if se, ok := ast.Unparen(as.Rhs[0]).(*ast.SliceExpr); ok && se.High == nil && se.Low != nil && exprKey(se.X) == exprKey(as.Lhs[0]) {
+			if call, ok := ast.Unparen(se.Low).(*ast.CallExpr); ok && len(call.Args) == 1 {
+				if id, ok := call.Fun.(*ast.Ident); ok && id.Name == "len" {
+					if tv, ok := info.Types[call.Args[0]]; ok {
+						if sl, ok := tv.Type.Underlying().(*types.Slice); ok {
+							if _, tn, ok := relPkgOfType(sl.Elem()); ok && tn == "HeaderParamNode" {
+								good = true
+							}
+						}
+					}
+				}
+			}
+		}
+		c.check(good, "R15c", "template.Registry.Add strips-header-params#"+itoa(n), as.Pos(), "the body loses exactly the collected header params",
+			"the template body is replaced by "+why+", which is not the body minus the collected header params (Nodes[len(headerParams):]): text the parser kept is dropped with the declarations")
+		return true
+	})
+	c.floor("R15c", "rewrites of a template body in Registry.Add", 1, n)
+}
